@@ -179,14 +179,17 @@ Print Assumptions explicit_id_read_refuted.
    pack clean-up with the tree packs of the index (which check_packs has just compared with
    the pack listing: PacksListed) makes the cached tree packs coherent: the reads of tree
    packs (partial, cacheable) and of packs in full that follow are transparent — from any
-   cache state, including stale, foreign and truncated tree packs. *)
-Theorem check_tree_packs_transparent : forall content pre l ord post c be,
+   cache state, including stale, foreign, truncated and longer tree packs, and for EITHER value
+   of CheckOptions::trust_cache: check_cleanup is the clean-up as guarded in the source (fact
+   pack_cleanup_needs_untrusted regenerated from check_repository: the guard is the presence of
+   a cache only; trust_cache only switches the content comparison off). *)
+Theorem check_tree_packs_transparent : forall content trust_cache pre l ord post c be,
   BeHonest content be -> CacheFaulty content c ->
   forallb good_item pre = true ->
   Forall (op_honest content) (history_ops pre) -> Forall (op_honest content) post ->
   PacksListed l (snd (run_u (history_ops pre) be)) ->
   forallb pack_read post = true ->
-  let ops := history_ops pre ++ OCleanPacks l ord :: post in
+  let ops := history_ops pre ++ check_cleanup trust_cache l ord ++ post in
   fst (run_c ops (mkst c be)) = fst (run_u ops be) /\
   bke (snd (run_c ops (mkst c be))) = snd (run_u ops be).
 Proof. exact check_tree_packs_transparent_lemma. Qed.
